@@ -46,6 +46,7 @@ type proposalView struct {
 }
 
 type mProposal struct {
+	expr       string            // strategy expression recorded in the proposal when it was first seen
 	ineligible map[string]string // administrators that were unavailable (status) throughout the block that created the proposal
 	id        string
 	votes     map[string]string // accepted votes: voter address -> approve|reject
@@ -199,6 +200,12 @@ func applyGov(s *scn, st CStep) {
 			tx = s.b.bvm(k, constant.AppchainMgrContractAddr, method+"Appchain", pb.String(target), pb.String("reason"))
 		}
 		s.add(tx, &txMeta{kind: "gov", sender: k, note: fmt.Sprintf("%s-%s/%s/%s", st.Act, st.Obj, role, target), target: target})
+	case "strategyupdate":
+		// the administrators change the voting strategy of a module while proposals of it may be open
+		module := []string{"appchain_mgr", "service_mgr", "role_mgr", "rule_mgr", "node_mgr"}[st.A%5]
+		expr := []string{"a > 0.5 * t", "a >= t", "a >= 1", "a >= 0.75 * t", "a - r >= 1"}[st.N%5]
+		s.govApprove(s.cfg.World.adminKey(0), constant.ProposalStrategyMgrContractAddr, "update-strategy/"+module, module, "UpdateProposalStrategy", pb.String(module), pb.String("SimpleMajority"), pb.String(expr), pb.String("reason"))
+		s.res.Count("gov_strategy_update")
 	case "withdraw":
 		// the sponsor withdraws one of its open proposals (and goes on submitting operations afterwards)
 		gm := s.gov
@@ -609,6 +616,14 @@ func afterBlockGov(s *scn, h uint64, txs []*pb.BxhTransaction, metas []*txMeta, 
 			}
 		}
 		s.logf("  proposal %s %s/%s status=%s approve=%d against=%d initial=%d available=%d end=%q", id[len(id)-8:], pv.Typ, pv.EventType, pv.Status, pv.ApproveNum, pv.AgainstNum, pv.InitialElectorateNum, pv.AvailableElectorateNum, pv.EndReason)
+		// "the strategy expression recorded for it": what a proposal recorded when it was created is what it concludes by,
+		// whatever happens to its module's strategy afterwards
+		if mp.expr == "" {
+			mp.expr = pv.StrategyExpression
+		} else if pv.StrategyExpression != mp.expr {
+			s.vio("C15", "recorded-strategy-changed", "", "after block %d proposal %s (%s %s, created in block %d) carries strategy expression %q, it recorded %q when it was created", h, id, pv.Typ, pv.EventType, mp.createdAt, pv.StrategyExpression, mp.expr)
+			mp.expr = pv.StrategyExpression
+		}
 		if mp.createdAt == h && !s.inSetup {
 			for _, e := range pv.ElectorateList {
 				if st, bad := mp.ineligible[e.ID]; bad {
